@@ -57,8 +57,7 @@ theorem randomSelect_valid (len : Nat) (cfg run : Option Int) (picks : List Nat)
     (randomSelect len cfg run picks).Nodup ∧ (∀ p ∈ randomSelect len cfg run picks, p < len) := by
   unfold randomSelect
   simp only
-  generalize (if (match run with | some r => r | none => (match cfg with | some c => if c = 0 then -1 else c | none => -1)) < 0
-    then len else min (match run with | some r => r | none => (match cfg with | some c => if c = 0 then -1 else c | none => -1)).toNat len) = k
+  generalize randomK len cfg run = k
   by_cases hk : k > 0
   · rw [if_pos hk]
     exact ⟨hnd.sublist (List.take_sublist _ _), fun p hp => hrange p (List.mem_of_mem_take hp)⟩
